@@ -958,8 +958,16 @@ def main(tier):
         'non-termination = no return within %s x len(repr) + 20000 line events of soupsieve/pretty.py (sys.settrace)' % (
             '300' if tier == 'quick' else '2000'),
     ]
+    try:
+        # imported in the parent first: a tree that cannot be imported is a machinery error, not a verdict
+        # (a failing pool initializer would make multiprocessing respawn workers for ever)
+        _winit()
+    except Exception as e:
+        chk.machinery('cannot import soupsieve from %s: %s: %s' % (common.REPO, type(e).__name__, str(e).split('\n')[0]))
+        chk.sample({'cfg': 'import', 'error': type(e).__name__})
+        return chk.finish()
     ctx = mp.get_context('fork')
-    pool = ctx.Pool(16, initializer=_winit)      # forked before any thread is started
+    pool = ctx.Pool(16)                           # forked before any thread is started
     import time
     try:
         results = {}
